@@ -109,6 +109,10 @@ class RoundTrip(Part):
         s = spec["s"]
         style = sut(GS.build_style, s)
         text = sut(str, style)
+        # definitions that differ from this one only in letter case (URLs are case sensitive) are normalised first: their results must not stand in for ours
+        for twin in (text.lower(), text.upper(), text.swapcase()):
+            if twin != text:
+                sut(Style.normalize, twin)
         back = sut(Style.parse, text)
         if not (back == style):
             ctx.violation("roundtrip", "C06/roundtrip/str", "parse(str(s)) = %r != %r (str %r)" % (back, style, text))
@@ -179,11 +183,17 @@ class Hashing(Part):
         from rich.color import Color
 
         s = spec["s"]
+        spaced = bool(s["link"]) and spec["cut"][0] == 2 and len(spec["cut"]) % 2 == 0
+        if spaced:
+            # a link given to the constructor with white space around it cannot be written as a definition, but every other route must agree on it
+            s = dict(s, link=" " + s["link"] + "\n")
+            ctx.cls("link-with-surrounding-space")
         routes = []
         kw = sut(GS.build_style, s)
         routes.append(("kw", kw))
-        routes.append(("parse", sut(Style.parse, str(kw))))
-        routes.append(("normalize", sut(Style.parse, Style.normalize(str(kw)))))
+        if not spaced:
+            routes.append(("parse", sut(Style.parse, str(kw))))
+            routes.append(("normalize", sut(Style.parse, Style.normalize(str(kw)))))
         # partition the set fields into up to 3 partial specs
         fields = [("a", k) for k in sorted(s["attrs"])] + [("f", f) for f in ("color", "bgcolor", "link") if s[f] is not None]
         parts = [{"attrs": {}, "color": None, "bgcolor": None, "link": None} for _ in range(3)]
